@@ -1,8 +1,8 @@
 package rules
 
 import (
-	"go/constant"
 	"fmt"
+	"go/constant"
 	"go/token"
 	"go/types"
 	"sort"
@@ -357,7 +357,34 @@ func (r mwReturn) pathOf(v ssa.Value) string {
 	if r.in != nil {
 		return an.PathOfIn(v, r.in)
 	}
+	// a value of a private helper that builds the reply (`return nil, m.reject(id), nil`):
+	// read through the helper's call that reaches this return
+	if in, isIn := v.(ssa.Instruction); isIn && in.Parent() != r.fn && r.fn != nil {
+		if site := r.siteOf(in.Parent()); site != nil {
+			return an.PathOfIn(v, &site.Call)
+		}
+	}
+	if p, isP := v.(*ssa.Parameter); isP && p.Parent() != r.fn && r.fn != nil {
+		if site := r.siteOf(p.Parent()); site != nil {
+			return an.PathOfIn(v, &site.Call)
+		}
+	}
 	return an.PathOf(v)
+}
+
+// siteOf: the call of helper g in the returning function on the way to this return.
+func (r mwReturn) siteOf(g *ssa.Function) *ssa.Call {
+	var site *ssa.Call
+	for _, ci := range calls(r.fn) {
+		call, ok := ci.(*ssa.Call)
+		if !ok || an.StaticCallee(&call.Call) != g {
+			continue
+		}
+		if call.Block() == r.ret.Block() || call.Block().Dominates(r.ret.Block()) {
+			site = call
+		}
+	}
+	return site
 }
 
 // classifyClientReturns classifies the returns of a ServeNostrClientMsg-shaped
